@@ -49,7 +49,10 @@ fn dispatch_run(prop: &str, tier: Tier, shard: Shard, rep: &mut Report) {
     match prop {
         "C02" => props::c02::run(tier, shard, rep),
         "C03" => props::c03::run(tier, shard, rep),
+        "C01" => props::c01::run(tier, shard, rep),
         "C04" => props::c04::run(tier, shard, rep),
+        "C05" => props::c05::run(tier, shard, rep),
+        "C06" => props::c06::run(tier, shard, rep),
         "C07" => props::c07::run(tier, shard, rep),
         "C08" => props::c08::run(tier, shard, rep),
         "C12" => props::c12::run(tier, shard, rep),
@@ -72,7 +75,10 @@ fn dispatch_replay(prop: &str, case: &serde_json::Value, rep: &mut Report) {
     match prop {
         "C02" => props::c02::replay(case, rep),
         "C03" => props::c03::replay(case, rep),
+        "C01" => props::c01::replay(case, rep),
         "C04" => props::c04::replay(case, rep),
+        "C05" => props::c05::replay(case, rep),
+        "C06" => props::c06::replay(case, rep),
         "C07" => props::c07::replay(case, rep),
         "C08" => props::c08::replay(case, rep),
         "C12" => props::c12::replay(case, rep),
